@@ -24,8 +24,7 @@ EXPLANATION = (
     "chain is followed through PROPFIND using only emitted hrefs; restarts re-run the start-up on the same world "
     "and must leave every existing file and repository byte-identical; the .well-known redirects point at the "
     "route prefix.")
-OUTSIDE = ["argument parsing, aiohttp's router / web.run_app wiring, mDNS",
-           "the xandikos.wsgi module's environment-variable configuration"]
+OUTSIDE = ["argument parsing, aiohttp's router / web.run_app wiring, mDNS"]
 ASSUMPTIONS = ["A1, A2, A3, A7", "principal path = '/' + 1..2 segments from the menu SEGMENU (plain, with blank, "
                "non-ASCII, dotted, plus, hash; '%' is excluded: --current-user-principal is a %-format template), with or without trailing slash - chosen by the solver"]
 
@@ -57,11 +56,56 @@ def _boot_fn():
     return ns["boot"]
 
 
+def _wsgi_boot_fn():
+    """The module body of xandikos/wsgi.py (the WSGI deployment's start-up script) as a function of the process
+    environment, compiled from the current source: wsgi_boot(os) -> (backend, app)."""
+    import xandikos.wsgi_helpers  # noqa: F401  (locates the package)
+    path = Wb.__file__.rsplit("/", 1)[0] + "/wsgi.py"
+    tree = ast.parse(open(path).read())
+    body = []
+    for st in tree.body:
+        if isinstance(st, (ast.Import, ast.ImportFrom)):
+            continue
+        if isinstance(st, ast.Expr) and isinstance(getattr(st, "value", None), ast.Constant):
+            continue
+        body.append(st)
+    body.append(ast.parse("return (backend, app)").body[0])
+    fn = ast.FunctionDef(name="wsgi_boot", args=ast.arguments(posonlyargs=[], args=[ast.arg(arg="os")], kwonlyargs=[],
+                                                               kw_defaults=[], defaults=[]),
+                         body=body, decorator_list=[], type_params=[])
+    mod = ast.Module([fn], [])
+    ast.fix_missing_locations(mod)
+    import logging
+    ns = {"logging": logging, "XandikosApp": Wb.XandikosApp, "XandikosBackend": Wb.XandikosBackend}
+    exec(compile(mod, "<xandikos/wsgi.py start-up>", "exec"), ns)
+    return ns["wsgi_boot"]
+
+
+class _EnvOS:
+    """`os` as xandikos/wsgi.py uses it: environment variables + the model file system."""
+
+    def __init__(self, env):
+        self.environ = dict(env)
+        self.path = Wm.MOS.path
+        self.makedirs = Wm.MOS.makedirs
+
+    def getenv(self, k, default=None):
+        return self.environ.get(k, default)
+
+
 _BOOT = _boot_fn()  # at import time: outside CrossHair's tracing
+_WSGI_BOOT = _wsgi_boot_fn()
 
 
-def boot(principal, autocreate, defaults):
+def boot(principal, autocreate, defaults, wsgi_module=False):
     Wb.open_store_from_path.cache_clear()
+    if wsgi_module:
+        env = {"XANDIKOSPATH": mweb.ROOT, "CURRENT_USER_PRINCIPAL": principal}
+        if defaults:
+            env["AUTOCREATE"] = "defaults"
+        elif autocreate:
+            env["AUTOCREATE"] = "yes"
+        return _WSGI_BOOT(_EnvOS(env))
     return _BOOT(mweb.ROOT, principal, autocreate=autocreate, defaults=defaults)
 
 
@@ -136,7 +180,10 @@ SEGMENU = ["a", "u s", "é", "user", "b.c", "a+b", "x#y"]
 
 
 def body_discovery(i1, i2, nseg, slash, restarts):
-    prefix, wsgi, mode = ctx.PART  # mode: "defaults" | "autocreate"
+    prefix, wsgi, mode = ctx.PART  # mode: "defaults" | "autocreate" | "wsgi-defaults" (xandikos/wsgi.py start-up)
+    wsgi_module = mode.startswith("wsgi-")
+    if wsgi_module:
+        mode = mode[5:]
     segs = [SEGMENU[i1], SEGMENU[i2]][:nseg]
     principal = "/" + "/".join(segs) + ("/" if slash and segs else "")
     if nseg == 0:
@@ -144,7 +191,7 @@ def body_discovery(i1, i2, nseg, slash, restarts):
     w = Wm.reset()
     for d in ("/srv", mweb.ROOT):
         w.dirs.add(d)
-    backend, app = boot(principal, mode == "autocreate", mode == "defaults")
+    backend, app = boot(principal, mode == "autocreate", mode == "defaults", wsgi_module)
     base = "/" + "/".join(segs)
     if mode == "defaults":
         cal = base + "/calendars/calendar"
@@ -160,7 +207,7 @@ def body_discovery(i1, i2, nseg, slash, restarts):
         cal = base + "/calendars/mine"
     for _ in range(restarts):
         before = Wm.digest(w)
-        backend, app = boot(principal, mode == "autocreate", mode == "defaults")
+        backend, app = boot(principal, mode == "autocreate", mode == "defaults", wsgi_module)
         if Wm.digest(w) != before:
             return (False, "restart-changed-data")
     got = discover(app, prefix, wsgi)
@@ -173,7 +220,7 @@ def body_discovery(i1, i2, nseg, slash, restarts):
         ok = ok and (base + "/contacts/addressbook") in [norm(a) for a in abs_]
         g = mweb.call(app, "GET", cal + "/e.ics", prefix=prefix, wsgi=wsgi)
         ok = ok and g.status_class == "2xx" and g.body == b"xe"
-    return (ok, mode + ":restarts%d" % restarts)
+    return (ok, ("wsgi-" if wsgi_module else "") + mode + ":restarts%d" % restarts)
 
 
 def h_discovery(i1: int, i2: int, nseg: int, slash: bool, restarts: int) -> bool:
@@ -220,13 +267,15 @@ def h_wellknown(which: int, sn_in_script: bool) -> bool:
 
 _B = {"quick": {"slen": 2, "restarts": 1}, "thorough": {"slen": 2, "restarts": 2}}
 _PARTS_Q = [("/", False, "defaults"), ("/dav/", False, "defaults"), ("/a/b/", True, "defaults"),
-            ("/", True, "autocreate"), ("/dav/", False, "autocreate")]
-_PARTS_T = [(p, w, m) for p in PREFIXES for w in (False, True) for m in ("defaults", "autocreate")]
+            ("/", True, "autocreate"), ("/dav/", False, "autocreate"), ("/dav/", True, "wsgi-defaults")]
+_PARTS_T = [(p, w, m) for p in PREFIXES for w in (False, True) for m in ("defaults", "autocreate")] + [
+    (p, True, m) for p in PREFIXES for m in ("wsgi-defaults", "wsgi-autocreate")]
 
 HARNESSES = [
     Harness("discovery", h_discovery, body_discovery,
             classes=[("defaults:restarts0", ("/", False, "defaults")), ("defaults:restarts1", ("/dav/", False, "defaults")),
-                     ("autocreate:restarts1", ("/", True, "autocreate"))],
+                     ("autocreate:restarts1", ("/", True, "autocreate")),
+                     ("wsgi-defaults:restarts1", ("/dav/", True, "wsgi-defaults"))],
             parts={"quick": _PARTS_Q, "thorough": _PARTS_T}, bounds=_B, budget={"quick": 100, "thorough": 600},
             describe="start-up with --defaults / --autocreate for a symbolic principal path, user data, 0..n restarts, "
                      "then root -> current-user-principal -> home sets -> Depth 1; part = (prefix, WSGI?, mode)",
